@@ -631,6 +631,36 @@ def classify(c, o, flags):
     return None
 
 
+def search_tables(ctx):
+    """A side condition broke: look in the regenerated expiry / revoke tables (outputs of the REAL PortMapping methods) for a
+    concrete row on which the property's clause 'revoked / expired mappings never yield an attachment' fails."""
+    import re
+    try:
+        txt = open(os.path.join(vlib.COQ, "Gen", "C04.v")).read()
+    except OSError:
+        return
+    tb = lambda x: x == "true"
+    m = re.search(r"Definition expiry_table.*?:= \[(.*?)\]\.", txt, re.S)
+    for off, past, isexp, isvalid in re.findall(r"\((\d+), (true|false), \((true|false), (true|false)\)\)", m.group(1) if m else ""):
+        if tb(isexp) != tb(past) or tb(isvalid) == tb(past):
+            when = "no expiry" if off == "0" else "%s ms %s now" % (off, "before" if tb(past) else "after")
+            ctx.violation("expiry-predicate", "real PortMapping with ExpiresAt %s (63900000000000 = the zero time.Time, 1700000000000 = Unix epoch): "
+                          "IsExpired()=%s IsValid()=%s — an expired mapping is valid (or a live one is not)" % (when, isexp, isvalid),
+                          {"case": {"mode": "expiry-row", "offset_ms": int(off), "past": tb(past)}, "observed": {"IsExpired": tb(isexp), "IsValid": tb(isvalid)}})
+            break
+    m = re.search(r"Definition revoke_table.*?:= \[(.*?)\]\.", txt, re.S)
+    pat = r"\(\((\d), (true|false), (\d)\), \((true|false), (true|false), (true|false), \((true|false), (true|false), (true|false)\)\)\)"
+    for st, ex, caller, ok, rev, valid, valid2, accl, acct in re.findall(pat, m.group(1) if m else ""):
+        if tb(ok) and not (tb(rev) and not tb(valid) and not tb(valid2) and not tb(accl) and not tb(acct)):
+            ctx.violation("revoke-not-effective", "real PortMapping.Revoke on a mapping with status %s%s by the %s client reports success, but afterwards "
+                          "IsRevoked=%s IsValid=%s; with the status set back to active: IsValid=%s CanBeAccessedBy(listen)=%s CanBeAccessedBy(target)=%s "
+                          "— a revoked mapping authorises tunnels" % (["active", "inactive", "error"][int(st)], " (expired)" if tb(ex) else "",
+                                                                        ["", "listening", "target", "unrelated"][int(caller)], rev, valid, valid2, accl, acct),
+                          {"case": {"mode": "revoke-row", "status": int(st), "expired": tb(ex), "caller": int(caller)},
+                           "observed": {"ok": tb(ok), "IsRevoked": tb(rev), "IsValid": tb(valid), "IsValid_reactivated": tb(valid2)}})
+            break
+
+
 def run(ctx, only_cases=None):
     thorough = ctx.tier == "thorough"
     binary = build_private()
@@ -643,6 +673,7 @@ def run(ctx, only_cases=None):
                             extra_obligations=8)  # the 8 regenerated side conditions in Proofs/SideC04.v
     except vlib.Broken as b:
         broken = b   # keep going: search the implementation for a concrete failing cell first
+        search_tables(ctx)
 
     rng = ctx.rng
     hists = []
@@ -1004,4 +1035,9 @@ def run(ctx, only_cases=None):
 
 def replay(ctx, path):
     r = json.load(open(path))
+    if r["replay"].get("case", {}).get("mode") in ("expiry-row", "revoke-row"):
+        # rows of the regenerated tables: regenerate them from the current tree and look again
+        vlib.write_if_changed(os.path.join(vlib.COQ, "Gen", "C04.v"), vlib.harness_text(build_private(), ["gen"]))
+        search_tables(ctx)
+        return
     run(ctx, only_cases=[r["replay"]["case"]])
